@@ -33,3 +33,6 @@ package gcrypto
 //@   ensures result != nil && ref(result) != ref(p)
 //@   ensures pbits(result) == pbits(p) && pmsg(result) == pmsg(p) && pkeys(result) == pkeys(p) && pkhash(result) == pkhash(p)
 //@   ensures typeof(result) == typeof(p)
+
+//@ iface CommonMessageSignatureProof.AsSparse(p)
+//@   ensures result.PubKeyHash == pkhash(p)
